@@ -31,3 +31,8 @@ Proof. intros t L p q reg xs d a b Hq Hp HL Hw Hd Hr Ha Hb. apply ridge_unique_o
 Print Assumptions C02_ridge_unique_l2_any_exponent.
 Print Assumptions C02_ridge_unique_product_any_exponent.
 Print Assumptions C02_ridge_unique_lpq_whole_range.
+Theorem C02_ridge_unique_sum_power_any_exponent : forall t L q c (power : nat) (reg : R) xs d a b, 0 < q <= 2 -> 0 < L -> 0 <= c <= 1 -> wf_tmat t d ->
+  Forall (fun x => length x = d) xs -> 0 < reg -> length a = length xs -> length b = length xs ->
+  mvR (add_diagR reg (gram (sum_power t L q c power) xs)) a = mvR (add_diagR reg (gram (sum_power t L q c power) xs)) b -> a = b.
+Proof. intros t L q c power reg xs d a b Hq HL Hc Hw Hd Hr Ha Hb. apply ridge_unique_of_psd; try assumption. intros cs. exact (sum_power_op_psd_all_q t L q c power xs cs d Hq HL Hc Hw Hd). Qed.
+Print Assumptions C02_ridge_unique_sum_power_any_exponent.
